@@ -124,11 +124,19 @@ func (r *relayItems) Count() int {
 }
 
 // Get checks for a relay item by ID, and will stop the timeout with the
-// read lock held (to avoid a race between timeout stop and deletion).
+// lock held (to avoid a race between timeout stop and deletion).
 // It returns whether a timeout was stopped, and if the item was found.
 func (r *relayItems) Get(id uint32, stopTimeout bool) (_ relayItem, stopped bool, found bool) {
-	r.RLock()
-	defer r.RUnlock()
+	if stopTimeout {
+		// Stopping mutates the timer, and two frames that finish the same call (a
+		// cancel from the caller, the last frame from the callee) can get here at
+		// the same time from two connections: they must not stop it concurrently.
+		r.Lock()
+		defer r.Unlock()
+	} else {
+		r.RLock()
+		defer r.RUnlock()
+	}
 
 	item, ok := r.items[id]
 	if !ok {
